@@ -6,9 +6,14 @@ NAMES = {1: "random schema, in-domain message", 2: "random schema, raw message (
          41: "history: valid document after failed conversions (random schema)", 42: "history: failing conversion",
          90: "quirk: integers wrapped / truncated / exponent spelling", 91: "quirk: null element / map value", 92: "quirk: duplicate members",
          93: "quirk: enum by number / name, base64 variants", 94: "quirk: map key spellings", 95: "error: string-spelled numbers, kind contradictions at every level",
+         105: "map key names: int32", 103: "map key names: int64", 113: "map key names: uint32", 104: "map key names: uint64", 108: "map key names: bool",
+         109: "map key names: string", 117: "map key kind sint32 (unsupported: error)", 118: "map key kind sint64 (unsupported: error)",
+         107: "map key kind fixed32 (unsupported: error)", 106: "map key kind fixed64 (unsupported: error)", 115: "map key kind sfixed32 (unsupported: error)",
+         116: "map key kind sfixed64 (unsupported: error)",
          96: "float spellings (double rounding, overflow, -0, subnormal)", 97: "not one JSON document", 98: "empty containers"}
 def name(c):
     if c in NAMES: return NAMES[c]
+    if c >= 100: return 'class %d' % c
     base, deco = c % 10, c // 10
     d = {1: "+ unknown/null/empty/default decorations, shuffled", 2: "+ shuffled", 3: "+ explicit defaults"}.get(deco, "")
     return (NAMES.get(base, "class %d" % c) + " " + d).strip()
